@@ -88,7 +88,10 @@ class SimultaneousScheduler(Scheduler):
             event = self.handle_delayed_event(model.events.pop(), dt=model.dt)
 
             if event:
-                model.agents[event.receiver_id].receive_event(event)
+                receiver = model.agent(event.receiver_id)
+
+                if receiver:
+                    receiver.receive_event(event)
 
                 if model.data_collector:
                     model.data_collector.record_event(time, event)
